@@ -276,7 +276,7 @@ def rule_r3(chk):
     from .. import effects
     chk.rule("C14-R3", "variants are filtered independently: the filter object built once in _data_hpf is applied to every variant in a "
              "loop, so filter_data (and every method it calls on self) leaves the object's state untouched: no rebinding, cell "
-             "store, in-place operator or in-place ndarray method on self.<attr> or on an uncopied alias of it", floor=2)
+             "store, in-place operator or in-place ndarray method on self.<attr> or on an uncopied alias of it", floor=2, shape_independent=True)
     n_ex = effects.self_check()
     m = chk.repo.mod(HMOD)
     d = m.func("_data_hpf")
@@ -314,9 +314,9 @@ def rule_r3(chk):
 
 
 def run(chk):
-    rule_r1(chk)
-    rule_r2(chk)
-    rule_r3(chk)
+    chk.guard(rule_r1, chk)
+    chk.guard(rule_r2, chk)
+    chk.guard(rule_r3, chk)
     chk.assumptions = [
         "slicing and element-wise exp/log commute (numpy semantics)",
         "optimality of the trend, exact constraint satisfaction, bridging of missing observations and the l1 optimality "
